@@ -78,21 +78,35 @@ def ring_raw(n, families=None, maxarg=None, pinned=False, force=False, maxu=1073
 
 # ------------------------------------------------------------------------------------------------
 def layout_steps(n, start, size, route='back', h=0):
-    """reach (start, size) through the public API only"""
+    """reach (start, size) through the public API only. Fillers are pushed first and popped one by one while the
+    real elements are pushed, so that the buffer is never emptied on the way (an implementation that re-centres an
+    empty buffer still reaches the layout); `expect_layout` records whether the layout was reached (drift note)."""
     st = [{"op": "new", "h": h}]
-    if n > 0:
-        if route == 'back':
-            for _ in range(start):
-                st.append({"op": "push_back", "h": h, "val": 0})
+    vals = [(k + 1) % 3 for k in range(size)]
+    if n > 0 and route == 'back':
+        fillers = start
+        for _ in range(fillers):
+            st.append({"op": "push_back", "h": h, "val": 0})
+        for v in vals:
+            if fillers > 0 and len([x for x in st if x["op"] == "push_back"]) - len([x for x in st if x["op"] == "pop_front"]) >= n:
                 st.append({"op": "pop_front", "h": h})
-        else:
-            for _ in range((n - start) % n):
-                st.append({"op": "push_front", "h": h, "val": 0})
-                st.append({"op": "pop_back", "h": h})
-        if len(st) > 1:
+                fillers -= 1
+            st.append({"op": "push_back", "h": h, "val": v})
+        for _ in range(fillers):
+            st.append({"op": "pop_front", "h": h})
+        if start > 0:
             st.append({"op": "caller_drop"})
-    for k in range(size):
-        st.append({"op": "push_back", "h": h, "val": (k + 1) % 3})
+    elif n > 0:
+        # from the other side: push_front / pop_back move the front position backwards
+        k = (n - start) % n
+        for _ in range(k):
+            st.append({"op": "push_front", "h": h, "val": 0})
+            st.append({"op": "pop_back", "h": h})
+        if k > 0:
+            st.append({"op": "caller_drop"})
+        for v in vals:
+            st.append({"op": "push_back", "h": h, "val": v})
+    st.append({"op": "expect_layout", "h": h, "i": start})
     return st
 
 
